@@ -8,8 +8,9 @@ CACHE = os.path.join(VERIF, ".cache")
 COQ = os.path.join(VERIF, "coq")
 OCAML = os.path.join(VERIF, "ocaml")
 HARNESS = os.path.join(VERIF, "harness")
-EVID = os.path.join(VERIF, "evidence")
-REPLAY = os.path.join(VERIF, "replays")
+# evidence/replays of runs against another tree (VERIF_REPO=...) never overwrite those of /repo
+EVID = os.path.join(VERIF, "evidence") if REPO == "/repo" else os.path.join(CACHE, "alt_evidence")
+REPLAY = os.path.join(VERIF, "replays") if REPO == "/repo" else os.path.join(CACHE, "alt_replays")
 GUARD = "hlorenzi_customasm_verif"
 NCPU = 16
 
